@@ -33,6 +33,9 @@ func logStateChanges(p *Prog, fn *Fn, n ast.Node, fields map[*types.Var]bool) []
 		case *ast.AssignStmt:
 			for _, l := range x.Lhs {
 				if v, _ := p.FieldSel(fn, stripIndexStar(l)); v != nil && fields[v] {
+					if nilInit(p, fn, x, l) {
+						continue // initialisation of an absent (nil) index: not an observable change
+					}
 					out = append(out, struct {
 						What string
 						Pos  token.Pos
@@ -89,8 +92,8 @@ func runC06(c *Ctx, r *Report) {
 		r.Doc(k, v)
 	}
 	nilControls(c, r, "control")
-	join := p.Func("", "IPFSLog", "Join")
-	app := p.Func("", "IPFSLog", "Append")
+	join := p.FuncI("", "IPFSLog", "Join")
+	app := p.FuncI("", "IPFSLog", "Append")
 	all := map[*types.Var]bool{}
 	for _, f := range []string{"Entries", "Next", "heads", "Clock"} {
 		all[p.Field("", "IPFSLog", f)] = true
@@ -249,7 +252,7 @@ func runC06(c *Ctx, r *Report) {
 	verifySigDominates(c, r, "R-C06.9")
 
 	// ---- R-C06.6
-	verify := p.Func("entry", "Entry", "Verify")
+	verify := p.FuncI("entry", "Entry", "Verify")
 	ne := NewNilEngine(p, c.CG)
 	uses := ne.ZeroVarUses(verify)
 	for _, u := range uses {
@@ -261,7 +264,7 @@ func runC06(c *Ctx, r *Report) {
 	nHash := 0
 	walkNoLit(verify.Body, func(n ast.Node) bool {
 		if call, ok := n.(*ast.CallExpr); ok {
-			if cf := p.Callee(verify, call); cf != nil && cf.Name() == "ToHashable" {
+			if c.CallReaches(verify, call, func(f2 *types.Func) bool { return f2.Name() == "ToHashable" && p.firstParty(f2.Pkg()) }) {
 				nHash++
 			}
 		}
@@ -273,7 +276,7 @@ func runC06(c *Ctx, r *Report) {
 	}
 
 	// ---- R-C06.7
-	diff := p.Func("", "", "difference")
+	diff := p.FuncI("", "", "difference")
 	idF := p.Field("", "IPFSLog", "ID")
 	df := &Flow{P: p, Fn: diff, Entry: Facts{}}
 	df.Edge = func(cond ast.Expr, taken bool, f Facts) {
@@ -397,18 +400,15 @@ func c063(c *Ctx, r *Report, join *Fn, errVars map[types.Object]bool) {
 	collOK = collOK && cv != nil && cv == ca
 	// the collection variable is not reassigned between the loops
 	if cv != nil {
-		n := 0
+		// no assignment to the collection between the validation loop and the end of the apply loop
 		walkNoLit(join.Body, func(nd ast.Node) bool {
 			for _, id := range assignedIdentsShallow(nd) {
-				if p.ObjOf(join, id) == cv {
-					n++
+				if p.ObjOf(join, id) == cv && id.Pos() > valRange.Pos() && id.Pos() < applyRange.End() {
+					collOK = false
 				}
 			}
 			return true
 		})
-		if n > 1 {
-			collOK = false
-		}
 	}
 	r.Check(collOK, "R-C06.3", key, applyRange.Pos(),
 		fmt.Sprintf("validation and application iterate the same collection (%s)", vx),
@@ -722,8 +722,8 @@ func c063(c *Ctx, r *Report, join *Fn, errVars map[types.Object]bool) {
 // c065: sign/verify pipelines agree.
 func c065(c *Ctx, r *Report) {
 	p := c.P
-	create := p.Func("entry", "", "CreateEntryWithIO")
-	verify := p.Func("entry", "Entry", "Verify")
+	create := p.FuncI("entry", "", "CreateEntryWithIO")
+	verify := p.FuncI("entry", "Entry", "Verify")
 	chainOf := func(fn *Fn, isSink func(*ssa.Call) (ssa.Value, bool)) (map[string]bool, bool) {
 		sf := p.SSAFunc(fn)
 		var start ssa.Value
@@ -854,7 +854,7 @@ func c065(c *Ctx, r *Report) {
 	cf.Node = func(n ast.Node, f Facts) {
 		walkNoLit(n, func(nd ast.Node) bool {
 			if call, ok := nd.(*ast.CallExpr); ok {
-				if fo := p.Callee(create, call); fo != nil && fo.Name() == "ToHashable" {
+				if c.CallReaches(create, call, func(f2 *types.Func) bool { return f2.Name() == "ToHashable" && p.firstParty(f2.Pkg()) }) {
 					f["hashed"] = true
 				}
 			}
@@ -923,7 +923,7 @@ func c065(c *Ctx, r *Report) {
 // finished entry, so a field set after PreSign makes the two runs disagree and the entry never verifies.
 func preSignInputsFinal(c *Ctx, r *Report, rule string) {
 	p := c.P
-	create := p.Func("entry", "", "CreateEntryWithIO")
+	create := p.FuncI("entry", "", "CreateEntryWithIO")
 	ps := p.Named("iface", "IOPreSign").Underlying().(*types.Interface)
 	var psM *types.Func
 	for i := 0; i < ps.NumMethods(); i++ {
@@ -959,7 +959,7 @@ func preSignInputsFinal(c *Ctx, r *Report, rule string) {
 	fl.Node = func(n ast.Node, f Facts) {
 		walkNoLit(n, func(nd ast.Node) bool {
 			if call, ok := nd.(*ast.CallExpr); ok {
-				if cf := p.Callee(create, call); cf == psM {
+				if c.CallReaches(create, call, func(f2 *types.Func) bool { return f2 == psM }) {
 					f["presigned"] = true
 				}
 			}
@@ -1063,4 +1063,22 @@ func fullCheckHelper(p *Prog, h *Fn, idx int) bool {
 		}
 	})
 	return ok && any
+}
+
+// nilInit: the assignment sits directly under `if <same field> == nil`.
+func nilInit(p *Prog, fn *Fn, as *ast.AssignStmt, lhs ast.Expr) bool {
+	for cur := p.parent[ast.Node(as)]; cur != nil; cur = p.parent[cur] {
+		if ifs, ok := cur.(*ast.IfStmt); ok {
+			for _, a := range splitCond(ifs.Cond, true) {
+				if x, isNil, ok := nilTest(a); ok && isNil && types.ExprString(ast.Unparen(x)) == types.ExprString(ast.Unparen(lhs)) {
+					return true
+				}
+			}
+			return false
+		}
+		if _, ok := cur.(*ast.FuncDecl); ok {
+			return false
+		}
+	}
+	return false
 }
